@@ -363,6 +363,29 @@ PLANS = {
         "assumptions": ["Go race detector (linux/amd64 runtime present)", "snapshots render every exported field of Config; operators by code pointer",
                         "TLC, Json module, harness recording"],
     },
+    "C07": {
+        "mc": {"quick": [{"module": "Concurrent", "cfg": "cfg/MCConc.quick.cfg", "emit_cases": "cases.txt", "workers": 4}],
+               "thorough": [{"module": "Concurrent", "cfg": "cfg/MCConc.thorough.cfg", "emit_cases": "cases.txt", "workers": 8, "timeout": 3400}]},
+        "drive": {"quick": [{"args": ["conc", "-cases", "{S}/cases.txt", "-n", "0", "-seed", "{seed}"]},
+                            {"args": ["conc", "-n", "400", "-seed", "{seed}"], "race": True}],
+                  "thorough": [{"args": ["conc", "-cases", "{S}/cases.txt", "-exhmax", "60000", "-n", "0", "-seed", "{seed}"], "timeout": 3400},
+                               {"args": ["conc", "-n", "8000", "-seed", "{seed}"], "race": True, "timeout": 3400}]},
+        "judge": {"module": "JudgeConc", "cfg": "JudgeConc.cfg"},
+        "replay_args": ["conc", "-n", "100", "-seed", "1"],
+        "engine": "histories",
+        "rule": "kind sched: one case = (one of five programs with fetches, registered-operator calls, binary and fast operators, "
+                "short circuits and if; a schedule GENERATED BY TLC from Concurrent.tla -- every interleaving of the processes' "
+                "effect steps) replayed on the real code: N goroutines on one shared Expr, each released through gates in its "
+                "fetcher / operators in the prescribed order; kind history: 4..11 calls (Eval, TryEval, Dump, DumpTable; random "
+                "bindings, some failing) on one Expr; kind stress: 16 free-running goroutines x 40 calls on one Expr, events off / "
+                "ReportEvent / Debug, built with -race; judged: every call = the same call alone on a freshly compiled program "
+                "(result, sentinel error identity, ordered effects with parameters), exported program identical before and "
+                "after, no race report with an access inside onheap/eval; non-trivial = a schedule with more steps than twice "
+                "the processes, or any history / stress call",
+        "sample": lambda o: {"kind": o["kind"], "src": o["src"], "schedule": o.get("sched"), "calls": o["calls"][:2]},
+        "assumptions": ["Go race detector observes memory accesses below gate granularity; TLC enumerates gate-level schedules",
+                        "gates: entry of VariableFetcher.Get and entry of registered operators", "TLC, Json module, harness recording"],
+    },
 }
 
 ENGINES = [
@@ -384,6 +407,6 @@ ENGINES.append({"name": "generator", "path": "spec/Generator.tla, MCGen.tla, Jud
                 "serves_properties": ["C20"],
                 "kind_free_text": "GenerateRandomExpr as a consumer of a draw script; model-checked over scripts; real runs with recorded draws replayed through the model"})
 ENGINES.append({"name": "histories", "path": "spec/Registry.tla, MCReg.tla, JudgeReg.tla, CompileHistory.tla, Concurrent.tla + harness/fam_reg.go, fam_compile.go, fam_conc.go",
-                "serves_properties": ["C08", "C11"],
+                "serves_properties": ["C07", "C08", "C11"],
                 "kind_free_text": "histories and schedules: registration histories, compile histories on shared configs, concurrent evaluations on a shared program (gated schedules + Go race detector)"})
 NOT_APPLICABLE = {}
